@@ -131,7 +131,9 @@ class Box(AbstractSpace[Float[Array, " ..."], None]):
         return f"Box(low={self.low}, high={self.high})"
 
     def __hash__(self) -> int:
-        return hash((self.low.tobytes(), self.high.tobytes()))
+        # `+ 0.0` turns -0.0 into 0.0: the two compare equal in __eq__, so they
+        # must not hash differently.
+        return hash(((self.low + 0.0).tobytes(), (self.high + 0.0).tobytes()))
 
     def flatten_sample(self, sample: Float[Array, " ..."]) -> Float[Array, " n"]:
         return jnp.asarray(sample, dtype=float).ravel()
